@@ -3,6 +3,7 @@ package e1
 import (
 	"fmt"
 	"strings"
+	"sync/atomic"
 
 	"vctl/internal/report"
 	"vctl/internal/rng"
@@ -22,6 +23,7 @@ func RunC14(tier string) int {
 	}
 	defer st.Cleanup()
 	n := tierN(tier, 40, 500)
+	var abandoned atomic.Int32
 	Parallel(n, func(i int) {
 		r := rng.Derive(uint64(run.Seed), "C14", fmt.Sprint(i))
 		pf := spec.DefaultProfile()
@@ -50,7 +52,7 @@ func RunC14(tier string) int {
 				}
 			case 4:
 				t.SleepIf = "markers/slow_" + t.Name
-				t.Timeout = "1s"
+				t.Timeout = "3s"
 			}
 		}
 		env, err := NewEnv(st.Base, fmt.Sprintf("c%d", i), st.Grog, st.Vctl, s, randCfg(r))
@@ -121,6 +123,13 @@ func RunC14(tier string) int {
 				run.Infra(err.Error())
 				return
 			}
+			if LoadTimeout(vs) {
+				run.Count("histories_abandoned_after_load_induced_timeout", 1)
+				if abandoned.Add(1) > 3 {
+					run.Inconclusive("more than 3 histories hit a timeout attribute without an injected delay (machine too loaded to judge)")
+				}
+				return
+			}
 			run.Eval(1)
 			run.Count("builds", 1)
 			run.Count("step:"+name, 1)
@@ -171,7 +180,7 @@ func RunC14(tier string) int {
 		if len(lib.AllOuts()) == 0 {
 			lib.Outs = append(lib.Outs, spec.Out{Kind: "file", Path: "lib.out"})
 		}
-		lib.Timeout, lib.SleepIf = "1s", "markers/slow_lib"
+		lib.Timeout, lib.SleepIf = "3s", "markers/slow_lib"
 		app := s.Targets[len(s.Targets)-1]
 		if !s.Closure([]string{app.Label()})[lib.Label()] {
 			app.Deps = append(app.Deps, lib.Label())
@@ -207,7 +216,7 @@ func RunC14(tier string) int {
 			run.Nontrivial("dep-rerun|" + s.Shape())
 			run.Count("dependencies_re_run_with_timeout", 1)
 			if obs.Ended[lib.Label()] > 0 || obs.Res.Exit == 0 {
-				run.Violation("timeout-not-enforced on-dependency-rerun", fmt.Sprintf("%s has timeout 1s and sleeps 20 s, but its re-run (dependency outputs lost, load_outputs=minimal) ran to completion: exit=%d", lib.Label(), obs.Res.Exit), mkReplay(i, env, obs))
+				run.Violation("timeout-not-enforced on-dependency-rerun", fmt.Sprintf("%s has timeout 3s and sleeps 20 s, but its re-run (dependency outputs lost, load_outputs=minimal) ran to completion: exit=%d", lib.Label(), obs.Res.Exit), mkReplay(i, env, obs))
 			}
 		}
 	})
